@@ -8,7 +8,7 @@ Require Import UV.Gen.Consts UV.C04.Model.
 Local Open Scope Z_scope.
 
 Definition set_rchan (ch : list tmsg) (s : rs) : rs :=
-  {| tids := tids s; rchan := ch; finish_received := finish_received s;
+  {| tids := tids s; rchan := ch; shm := shm s; finish_received := finish_received s;
      child_exited := child_exited s; failed := failed s |}.
 Fixpoint handle_all (ms : list tmsg) (s : rs) : rs :=
   match ms with
@@ -96,7 +96,7 @@ Proof.
   (* whatever the first iteration does, the state it continues with has no pending fork left, or it stops *)
   assert (Hnext : forall ce,
             is_stopped (stop_loop true (S (S k)) dead true
-                          {| tids := l2; rchan := []; finish_received := finish_received s;
+                          {| tids := l2; rchan := []; shm := shm s; finish_received := finish_received s;
                              child_exited := ce; failed := failed s |}) = true).
   { intro ce. cbn [stop_loop rchan]. unfold check_tid_list. cbn [tids rchan finish_received child_exited failed].
     set (l3 := map (check_mark dead) l2).
@@ -234,7 +234,7 @@ Proof.
     with (stop_loop false k (fun _ => true) true
             {| tids := [ {| t_pid := 100; t_tid := -1; t_exited := false |};
                          {| t_pid := 100; t_tid := 100; t_exited := true |} ];
-               rchan := []; finish_received := false; child_exited := false; failed := false |}).
+               rchan := []; shm := []; finish_received := false; child_exited := false; failed := false |}).
   apply stuck_forever; [reflexivity|]. split; [reflexivity|]. split; [reflexivity|].
   eexists. split; [left; reflexivity|]. split; [reflexivity|reflexivity].
 Qed.
